@@ -22,21 +22,7 @@ func VerifMatchesDateZone(y, m, d, hh, mi, off int, dateStr, cmp string) bool {
 	return matchesDate(time.Date(y, time.Month(m), d, hh, mi, 0, 0, time.FixedZone("", off)), dateStr, cmp)
 }
 
-func VerifEvalTokensZone(seq int, uid int64, flags string, y, m, d, hh, mi, off int, tokens []string) bool {
-	return evaluateTokens(messageInfo{seqNum: seq, uid: uid, flags: flags,
+func VerifEvalTokensZone(seq int, uid int64, maxSeq int, maxUID int64, flags string, y, m, d, hh, mi, off int, tokens []string) bool {
+	return evaluateTokens(messageInfo{seqNum: seq, uid: uid, flags: flags, maxSeqNum: maxSeq, maxUID: maxUID,
 		internalDate: time.Date(y, time.Month(m), d, hh, mi, 0, 0, time.FixedZone("", off))}, tokens, "US-ASCII", 0, nil)
-}
-
-// VerifEvaluateSearchCriteria calls evaluateSearchCriteria on a listing given by
-// parallel slices (entry k: stored message ids[k], uid uids[k], flag string
-// flags[k], internal date dates[k] at 12:00 UTC, sequence number k+1). Several
-// entries may share a stored message id (a copied message). No db: text keys
-// answer false and are not used through this entry point.
-func VerifEvaluateSearchCriteria(ids []int64, uids []int64, flags []string, dates [][3]int, criteria string) []int {
-	msgs := make([]messageInfo, len(ids))
-	for k := range ids {
-		msgs[k] = messageInfo{messageID: ids[k], uid: uids[k], flags: flags[k], seqNum: k + 1,
-			internalDate: time.Date(dates[k][0], time.Month(dates[k][1]), dates[k][2], 12, 0, 0, 0, time.UTC)}
-	}
-	return evaluateSearchCriteria(msgs, criteria, "US-ASCII", 0, nil)
 }
